@@ -289,6 +289,7 @@ func (dlv *Delivery) Normalize(normalizers tax.Normalizers) {
 		// normalized, so that the result does not change on a second pass
 		applyCustomerRates(dlv)
 	}
+	dropOwnCountryFromTaxes(dlv)
 	tax.Normalize(normalizers, dlv.Despatcher)
 	tax.Normalize(normalizers, dlv.Receiver)
 	tax.Normalize(normalizers, dlv.Preceding)
